@@ -2,6 +2,7 @@ import NanoVerif.Model.ViewBox
 import NanoVerif.Proofs.AffineLemmas
 import NanoVerif.Props.C16
 import NanoVerif.Proofs.PaintedLayers
+import NanoVerif.Proofs.TrColorGlyph
 /-
 C01 — COLRv1 glyph paints the same picture as its source SVG.
 What is proved here (for all inputs): the placement affine is the one the property states
